@@ -1,12 +1,26 @@
 (* C15 — responses written by the library can be read back by it.  Property theorems only.
-   FULL statement (not proved in general yet; see the _partial theorems and DESIGN.md):
-     for both serialisers S and every response r with a registered status and its phrase, well-formed headers, one part or 2..n parts
-     whose bodies contain no line containing the boundary token:  response_parse (S r) = POk r' with r' = r up to the derived headers. *)
-From Rws Require Import Str Utf8 Num Fs UrlParse RangeSpec Request GenMime Mime StaticRes GenConsts Forms Server RespParse C15Proof.
+   FULL statement: for both serialisers S and every response r with a registered status and its phrase, well-formed headers, one part
+   or 2..n parts whose bodies contain no line containing the boundary token:  response_parse (S r) = POk r' with r' = r up to the
+   derived headers.  PROVED for one part (C15_single_part_round_trip: every status of the regenerated table, any header list, any body
+   bytes, any range start <= end <= size) - where the instance serialiser is shown to lose the content type for EVERY such response
+   (finding C15-F2, now characterised in general); several parts: by evaluation of representative values and by correspondence. *)
+From Rws Require Import Str Utf8 Num Fs UrlParse RangeSpec Request GenMime Mime StaticRes GenConsts Forms Server RespParse RespDomain C15Proof C15Round.
 Open Scope N_scope.
 
-Definition C15_full : Prop := forall inst r, (* well-formedness elided: see the comment above *) True ->
-  exists r', response_parse (lib_generate inst r) = POk r' /\ pr_status r' = pr_status r /\ pr_ranges r' = pr_ranges r.
+Theorem C15_single_part_round_trip : forall inst r, single_ok r = true ->
+  match pr_ranges r with
+  | [p] => response_parse (lib_generate inst r) =
+           POk (mkPresp (pr_version r) (pr_status r) (pr_reason r) (pr_headers r ++ lib_derived inst [p])
+                        [(pr_start p, pr_end p, pr_size p, pr_body p, if inst then OCTET else pr_type p)])
+  | _ => False
+  end.
+Proof. exact single_ok_round_trip. Qed.
+(* the domain is inhabited: a sub-range of a binary body with CR LF inside, an empty body, extreme offsets, headers with ": " in the value *)
+Theorem C15_single_part_domain :
+  single_ok resp_single = true /\
+  single_ok (mkPresp HTTP11 404 (reason 404) [mkH [88;45;65] [98;58;32;99]; mkH [86;97;114;121] []] [(0, 0, [48], [], [116;101;120;116;47;104;116;109;108])]) = true /\
+  single_ok (mkPresp HTTP11 200 (reason 200) [] [(9223372036854775806, 9223372036854775807, show_N 9223372036854775807, [255; 0; 13; 10; 13; 10], [97;47;98])]) = true.
+Proof. vm_compute. repeat split. Qed.
 
 (* proved for representative values by computation: three parts with binary, empty and CRLF bodies through both serialisers; one
    part with a proper sub-range (the former finding C15-F1, repaired by 5f94c65) *)
